@@ -13,7 +13,7 @@ THEOREMS = [
     "utf16_roundtrip", "utf16_roundtrip_converse", "externalize_invalid_byte", "internalize_lone_low", "internalize_lone_high_end",
     "internalize_high_then_any", "roundtrip_scalar", "roundtrip", "roundtrip_negzero", "roundtrip_nilmap", "roundtrip64_exact",
     "roundtrip64_beyond", "mk64_exact", "documented_table_ext", "documented_table_back", "wrapper_stable", "wrapper_injective",
-    "wrapper_call_spec", "callback_guard", "callback_guard_raised", "scheduler_never_calls_noGoroutine", "callback_guard_witness", "callback_guard_old_counterexample",
+    "wrapper_call_spec", "tag_key_spec", "tag_key_byte_escaped_denotes_bytes", "tag_key_byte_escaped_counterexample", "callback_guard", "callback_guard_raised", "scheduler_never_calls_noGoroutine", "callback_guard_witness", "callback_guard_old_counterexample",
 ]
 
 INT_KINDS = {"Ti": (-2 ** 31, 2 ** 31 - 1), "Ti8": (-128, 127), "Ti16": (-2 ** 15, 2 ** 15 - 1), "Ti32": (-2 ** 31, 2 ** 31 - 1),
@@ -621,7 +621,10 @@ def run(tier, seed):
                 "mismatching shape (typed arrays of every class, lone surrogates, digit strings, wrappers); string transcoding: "
                 "all code points at encoding boundaries + a stride over all code points, every invalid lead byte, lone surrogates "
                 "in every context; callback-guard scripts (send/recv/select by goroutines and inside callbacks, controlled Math.random) on the real $send/$recv/$select/$block/$schedule. An op is non-trivial when "
-                "distinct (sha1 of the op line). (b,c) compiled programs under GopherJS+Node, expected values from the model.")
+                "distinct (sha1 of the op line). (b,c) compiled programs under GopherJS+Node, expected values from the model; js-tagged struct fields "
+                "with tags drawn from identifiers, names needing bracket notation, non-ASCII (BMP / non-BMP), quotes / backslashes / </script>, "
+                "non-decimal number characters and random mixtures - each written from Go and read by JavaScript under the tag's UTF-16 name, "
+                "written by JavaScript and read from Go, listed with js.Keys, and function-valued; deferred / go'ed variadic js calls.")
     chk.trusted = ["Lean 4.33 kernel", "axioms: propext, Classical.choice, Quot.sound at most (listed per theorem)",
                    "hand-written models GV.Model.JsConv / Utf16 / CbGuard tied to jsmapping.js / goroutines.js by this differential run",
                    "GV.Spec.JsTable = my transcription of the table in the package comment of js/js.go",
@@ -1200,6 +1203,163 @@ GUARD_EXPECT = {
 }
 
 
+# ---------------------------------------------------------------------------------------------------------------
+# js-tagged struct fields: property names seen from both sides; deferred / go'ed variadic js calls
+# ---------------------------------------------------------------------------------------------------------------
+
+TAG_FIXED = ["name", "$x_1", "_9", "größe", "价格", "\U0001d4b3y", "my name", "a-b", "a.b", "f(x)", "1abc", "x y-z",
+             "größe-cm", "价格 (USD)", "ok-\U0001f600", "\U0001f600", "é è", "\U0001d4b3-\U0001d4b4",
+             'a"b', "a'b", "a\\b", "</script>", "<x>&=", "a\"'\\<>&=b", "@&\"'<>//my name", "x²", "½", "nⅧ", "d٣"]
+TAG_POOLS = ["abcxyzABZ", "019", "$_", " -.()[]+*/", "\"'\\<>&=", "ößéØ", "价格あ", "\U0001f600\U0001d4b3\U00010400",
+             "²Ⅷ٣"]
+
+
+def gen_tags(rng, n):
+    tags = []
+    fixed = list(TAG_FIXED)
+    rng.shuffle(fixed)
+    for t in fixed[:max(4, n // 2)]:
+        tags.append(t)
+    while len(tags) < n:
+        k = rng.randrange(1, 6)
+        pools = [rng.choice(TAG_POOLS) for _ in range(rng.randrange(1, 4))]
+        t = "".join(rng.choice(rng.choice(pools)) for _ in range(k))
+        if t and t not in tags and t.strip() == t and t not in ("constructor", "toString", "valueOf"):
+            tags.append(t)
+    return tags
+
+
+def tag_literal(tag):
+    """the Go struct tag `js:"<tag>"` as an interpreted Go string literal (every byte escaped)"""
+    inner = tag.replace("\\", "\\\\").replace('"', '\\"')
+    return go_str(('js:"' + inner + '"').encode("utf-8"))
+
+
+def js_name_lit(units_hex):
+    """a JavaScript string literal for the property name given as UTF-16 units (4 hex digits each)"""
+    return '"' + ("" if units_hex == "-" else "".join("\\u" + units_hex[i:i + 4] for i in range(0, len(units_hex), 4))) + '"'
+
+
+def prog_tags(tags, names16):
+    """one struct wrapping a *js.Object with one js-tagged field per tag (string / int / func in turn); every field is
+    written from Go and read by JavaScript under its documented name, written by JavaScript and read from Go, listed by
+    js.Keys, and (func fields) called from both sides. Returns (source, expected lines)."""
+    fields, body1, body2, exp1, exp2 = [], [], [], [], []
+    for i, (tag, nm) in enumerate(zip(tags, names16)):
+        lit = js_name_lit(nm)
+        kind = i % 3
+        if kind == 0:
+            fields.append("\tF%d string %s" % (i, tag_literal(tag)))
+            body1.append('\tt.F%d = "g%d"' % (i, i))
+            body1.append('\tprintln("w2r %d", ev(%s).Invoke(t).String())' % (i, go_str(("(function(o){return String(o[%s])})" % lit).encode())))
+            exp1.append("w2r %d g%d" % (i, i))
+            body2.append("\tev(%s).Invoke(t)" % go_str(("(function(o){o[%s]='j%d'})" % (lit, i)).encode()))
+            body2.append('\tprintln("r2w %d", t.F%d)' % (i, i))
+            exp2.append("r2w %d j%d" % (i, i))
+        elif kind == 1:
+            fields.append("\tF%d int %s" % (i, tag_literal(tag)))
+            body1.append("\tt.F%d = %d" % (i, 100 + i))
+            body1.append("\tt.F%d++" % i)
+            body1.append('\tprintln("w2r %d", ev(%s).Invoke(t).String())' % (i, go_str(("(function(o){return String(o[%s])})" % lit).encode())))
+            exp1.append("w2r %d %d" % (i, 101 + i))
+            body2.append("\tev(%s).Invoke(t)" % go_str(("(function(o){o[%s]=%d})" % (lit, 200 + i)).encode()))
+            body2.append('\tprintln("r2w %d", t.F%d)' % (i, i))
+            exp2.append("r2w %d %d" % (i, 200 + i))
+        else:
+            fields.append("\tF%d func(int) int %s" % (i, tag_literal(tag)))
+            body1.append("\tt.F%d = func(x int) int { return x + %d }" % (i, i))
+            body1.append('\tprintln("w2r %d", ev(%s).Invoke(t).String())' % (i, go_str(("(function(o){return typeof o[%s]==='function'?String(o[%s](1000)):'not-a-function:'+typeof o[%s]})" % (lit, lit, lit)).encode())))
+            exp1.append("w2r %d %d" % (i, 1000 + i))
+            body2.append("\tev(%s).Invoke(t)" % go_str(("(function(o){o[%s]=function(x){return x*2+%d}})" % (lit, i)).encode()))
+            body2.append('\tprintln("r2w %d", t.F%d(500))' % (i, i))
+            exp2.append("r2w %d %d" % (i, 1000 + i))
+    keys = sorted(hexs(list(t.encode("utf-8"))) for t in tags)
+    src = (PROG_HEAD + "\ntype T struct {\n\t*js.Object\n" + "\n".join(fields) + "\n}\n\nfunc keys(o *js.Object) string {\n"
+           "\tks := js.Keys(o)\n\tfor i := 1; i < len(ks); i++ {\n\t\tfor j := i; j > 0 && hexs(ks[j]) < hexs(ks[j-1]); j-- {\n\t\t\tks[j], ks[j-1] = ks[j-1], ks[j]\n\t\t}\n\t}\n"
+           "\tout := []string{}\n\tfor _, k := range ks {\n\t\tout = append(out, hexs(k))\n\t}\n\treturn join(out)\n}\n\n"
+           "func main() {\n\t_, _, _, _, _ = zero, negz, nan, pinf, ninf\n\tev := func(s string) *js.Object { return js.Global.Call(\"eval\", s) }\n"
+           "\tt := &T{Object: js.Global.Get(\"Object\").New()}\n" + "\n".join(body1) + "\n\tprintln(\"keys\", keys(t.Object))\n" + "\n".join(body2) +
+           "\n\tprintln(\"keys\", keys(t.Object))\n}\n")
+    exp = exp1 + ["keys " + ",".join(keys)] + exp2 + ["keys " + ",".join(keys)]
+    return src, exp
+
+
+DEFER_PROG = """package main
+
+import "github.com/gopherjs/gopherjs/js"
+
+func show(a *js.Object) string { return js.Global.Get("JSON").Call("stringify", a).String() }
+
+func one(a *js.Object)    { defer a.Call("push", 5) }
+func two(a *js.Object)    { defer a.Call("push", 6, "x") }
+func none(a *js.Object)   { defer a.Call("reverse") }
+func spread(a *js.Object) { defer a.Call("push", []interface{}{8, 9}...) }
+func inv(f *js.Object)    { defer f.Invoke(1, 2.5, "s") }
+func mk(c *js.Object)     { defer c.New(3) }
+
+func main() {
+	a := js.Global.Get("Array").New()
+	one(a)
+	println("one", show(a))
+	two(a)
+	println("two", show(a))
+	none(a)
+	println("none", show(a))
+	spread(a)
+	println("spread", show(a))
+	f := js.Global.Call("eval", "(function(){ globalThis.seen = Array.prototype.slice.call(arguments); })")
+	inv(f)
+	println("invoke", show(js.Global.Get("seen")))
+	mk(js.Global.Call("eval", "(function(n){ globalThis.made = n; })"))
+	println("new", js.Global.Get("made").Int())
+	done := make(chan bool)
+	go a.Call("push", 10, 11)
+	go func() { done <- true }()
+	<-done
+	println("go", show(a))
+}
+"""
+DEFER_EXPECT = ['one [5]', 'two [5,6,"x"]', 'none ["x",6,5]', 'spread ["x",6,5,8,9]', 'invoke [1,2.5,"s"]', "new 3", 'go ["x",6,5,8,9,10,11]']
+
+
+def tag_jobs(chk, tier):
+    rng = chk.rng
+    nprog = 6 if tier == "thorough" else 2
+    jobs, meta = [], []
+    for k in range(nprog):
+        tags = gen_tags(rng, 15)
+        names16 = C.run_driver("C11", ["jsconv tagname %s" % hexs(list(t.encode("utf-8"))) for t in tags])
+        src, exp = prog_tags(tags, names16)
+        jobs.append({"id": "tags%d" % k, "files": {"main.go": src}, "variants": ["plain", "minify"], "native": False, "timeout": 300})
+        meta.append(("tags", (tags, exp)))
+    jobs.append({"id": "defer-variadic", "files": {"main.go": DEFER_PROG}, "variants": ["plain", "minify"], "native": False, "timeout": 300})
+    meta.append(("defer", DEFER_EXPECT))
+    return jobs, meta
+
+
+def tag_results(chk, j, v, obs, kind, info):
+    tie = "program-%s:%s" % (kind, v)
+    if kind == "tags":
+        tags, exp = info
+        ops = []
+        for e in exp:
+            p = e.split(" ")
+            if p[0] == "keys":
+                ops.append("tags keys " + ",".join(hexs(list(t.encode("utf-8"))) for t in tags))
+            else:
+                ops.append("tags %s field=%s tag=%s" % (p[0], p[1], hexs(list(tags[int(p[1])].encode("utf-8")))))
+    else:
+        exp = info
+        ops = ["defer-variadic %s" % e.split(" ")[0] for e in exp]
+    lines = obs[0]
+    if obs[1] != "exit0" or len(lines) != len(exp):
+        # a program that does not even load (SyntaxError) or stops early: report the tags with what was seen
+        chk.add_mismatch(tie, json.dumps({"id": j["id"], "ops": ops[:40], "source": j["files"]["main.go"][:4000]}),
+                         impl=json.dumps([lines[-3:], obs[1]]), spec="%d lines, exit0" % len(exp))
+        return
+    chk.compare(tie, ops, lines, exp, kind=lambda o, a, kind=kind: "program:" + kind + ":" + o.split(" ")[1].split("=")[0])
+
+
 def program_tie(chk, tier, g):
     """(b) self-checking compiled programs (GopherJS + Node only: there is no native twin of package js); (c) the guard."""
     from . import progs
@@ -1234,6 +1394,9 @@ def program_tie(chk, tier, g):
     meta.append(("guard", "recv"))
     jobs.append({"id": "guard-select", "files": {"main.go": GUARD_PROG % GUARD_SELECT}, "variants": ["plain"], "native": False, "timeout": 300})
     meta.append(("guard", "select"))
+    tj, tm = tag_jobs(chk, tier)
+    jobs += tj
+    meta += tm
     res = progs.run_jobs(jobs, par=4)
     # a timed-out job is re-run alone before anything is concluded from it (the machine is shared and loaded)
     for i, (j, r) in enumerate(zip(jobs, res)):
@@ -1247,6 +1410,9 @@ def program_tie(chk, tier, g):
             if obs[1] == "timeout":
                 raise RuntimeError("program %s timed out twice (loaded machine?)" % j["id"])
             tie = "program-%s:%s" % (kind, v)
+            if kind in ("tags", "defer"):
+                tag_results(chk, j, v, obs, kind, info)
+                continue
             if kind in ("ext", "iface"):
                 model = C.run_driver("C11", info)
                 lines = obs[0]
